@@ -115,7 +115,7 @@ def check(rep):
     )
     rule_shift_order(rep)
     rule_main_loop(rep)
-    from .C02 import rule_all_parents, rule_link_no_drop, rule_revisit
+    from .C02 import rule_all_parents, rule_link_key, rule_link_no_drop, rule_revisit
     from .C05 import rule_first, rule_nullable_scans, rule_rearm, rule_states
     from .C08 import rule_roles_glr
     from .C10 import rule_errors_are_syntax_errors, rule_expected
@@ -128,6 +128,7 @@ def check(rep):
     rule_roles_glr(rep)
     rule_link_no_drop(rep)
     rule_revisit(rep)
+    rule_link_key(rep)
     rule_all_parents(rep)
     rule_forest_root(rep)
     rule_first(rep)
